@@ -6,8 +6,7 @@ cp = "/opt/veriftools/tla/tla2tools.jar:/opt/veriftools/tla/CommunityModules-dep
 bad = 0
 for f in sorted(glob.glob(os.path.join(spec, "*.tla"))):
     p = subprocess.run(["java", "-cp", cp, "tla2sany.SANY", os.path.basename(f)], cwd=spec, capture_output=True, text=True)
-    ok = p.returncode == 0 and "error" not in p.stdout.lower().replace("semantic errors", "")
-    if p.returncode != 0:
+    if p.returncode != 0 or "*** Errors" in p.stdout or "Semantic errors" in p.stdout or "Parsing or semantic analysis failed" in p.stdout:
         bad += 1
         print("SANY failed on", f, "\n", p.stdout[-2000:])
 print("parsed", len(glob.glob(os.path.join(spec, "*.tla"))), "modules,", bad, "failures")
